@@ -207,3 +207,322 @@ Proof.
     { unfold last_index. rewrite Elog. rewrite (log_last_wf _ _ Hw1 ltac:(discriminate)). reflexivity. }
     eapply Forall_impl; [| exact Hge]. intros e He. simpl in He. simpl length in *. lia.
 Qed.
+
+(* ---------------------------------------------------------------- leader events *)
+Lemma log_append_iconf s es c :
+  contig (n_p s) -> continues (n_p s) es -> c = fold_left cstep es (iconf (n_p s)) ->
+  match log_append s es with Ret s' => contig (n_p s') /\ c = iconf (n_p s') /\ n_conf s' = n_conf s | _ => True end.
+Proof.
+  intros Hc Hcont Hn.
+  assert (X : kx (log_append (set_conf s c) es)) by (apply kx_log_append; simpl; auto).
+  unfold log_append, do_mut in *. simpl in X.
+  destruct (negb (n_budget s =? 0) && (n_budget s =? n_cnt s + 1)); simpl in *; auto.
+  destruct (snd (mem_append (p_log (n_p s)) es)); simpl in *; auto.
+  destruct X as [X1 X2]. unfold K0 in X2. simpl in X2. auto.
+Qed.
+
+Lemma kx_leader_propose s es :
+  contig (n_p s) ->
+  n_conf s = fold_left cstep (stamp es (last_index (n_p s) + 1) (p_term (n_p s))) (iconf (n_p s)) ->
+  kx (leader_propose s es).
+Proof.
+  intros Hc Hn. unfold leader_propose. apply kx_bind.
+  - apply kx_log_append; auto. unfold continues. pose proof (stamp_head es (last_index (n_p s) + 1) (p_term (n_p s))) as X.
+    destruct (stamp es (last_index (n_p s) + 1) (p_term (n_p s))); auto.
+  - intros s1 W1. apply kx_bind.
+    + eapply srx_kx; [exact W1|]. apply srx_for_peers. intros s3 p.
+      match goal with |- srx s3 (if ?c then _ else _) => destruct c end; [apply srx_send_app_ents | kleafS].
+    + intros s2 W2. destruct (l_peers s2); [eapply srx_kx; [exact W2 | apply srx_leader_maybe_commit] | exact W2].
+Qed.
+
+Lemma k0x2_propose s es : K s -> Forall (fun e => isconfb e = false) es -> k0x2 (propose s es).
+Proof.
+  intros [Hc Hn] Hf. unfold propose. destruct (n_role s); simpl; try exact Hn.
+  apply k0x2_of. apply kx_k0x. apply kx_leader_propose; auto.
+  rewrite fold_cstep_nonconf; [exact Hn | apply stamp_nonconf; exact Hf].
+Qed.
+
+Lemma k0x2_add_node s member rnd : K s -> k0x2 (add_node s member rnd).
+Proof.
+  intros W. pose proof W as [Hc Hn]. unfold add_node. destruct (n_role s); simpl; try exact Hn.
+  unfold leader_add_node. pose proof (pure_verify_nop_committed s) as Pv.
+  destruct (verify_nop_committed s) as [[] | |]; simpl in *; auto.
+  destruct (n_conf s) as [c |] eqn:Ec; [| simpl; auto].
+  destruct (memb member (mb_members c)); [simpl; exact Hn|].
+  destruct (negb (latest_conf_committed s)); [simpl; exact Hn|].
+  cbv zeta. apply k0x2_of. apply kx_k0x. apply kx_leader_propose; simpl; auto.
+  unfold K0 in Hn. rewrite <- Hn, Ec. unfold cstep, isconfb. simpl. rewrite decode_stamped_conf. reflexivity.
+Qed.
+
+Lemma k0x2_remove_node s member : K s -> k0x2 (remove_node s member).
+Proof.
+  intros W. pose proof W as [Hc Hn]. unfold remove_node. destruct (n_role s); simpl; try exact Hn.
+  unfold leader_remove_node. pose proof (pure_verify_nop_committed s) as Pv.
+  destruct (verify_nop_committed s) as [[] | |]; simpl in *; auto.
+  destruct (n_conf s) as [c |] eqn:Ec; [| simpl; auto].
+  destruct (negb (memb member (mb_members c))); [simpl; exact Hn|].
+  destruct (negb (latest_conf_committed s)); [simpl; exact Hn|].
+  cbv zeta. apply k0x2_bind.
+  - apply kx_k0x. apply kx_leader_propose; simpl; auto.
+    unfold K0 in Hn. rewrite <- Hn, Ec. unfold cstep, isconfb. simpl. rewrite decode_stamped_conf. reflexivity.
+  - intros s3 W3. apply k0x2_of. eapply srx_k0x; [exact W3 | apply srx_leader_maybe_commit].
+Qed.
+
+Lemma k0x2_bootstrap s ms ep : K s -> k0x2 (propose_initial_membership s ms ep).
+Proof.
+  intros W. pose proof W as [Hc Hn]. unfold propose_initial_membership.
+  destruct (n_role s); simpl; try exact Hn. destruct (is_clean (n_p s)) eqn:Ecl; [| simpl; exact Hn].
+  assert (Hcl : p_log (n_p s) = [] /\ p_snap (n_p s) = None).
+  { unfold is_clean in Ecl. destruct (p_log (n_p s)); [| simpl in Ecl; try discriminate; destruct (p_snap (n_p s)); discriminate].
+    destruct (p_snap (n_p s)); [simpl in Ecl; try discriminate | auto]. }
+  destruct Hcl as [Hl Hs].
+  pose proof (srx_do_mut s (MSaveState 0 1) I) as X.
+  destruct (do_mut (MSaveState 0 1) s) as [s1 | |]; simpl in *; auto.
+  pose proof (sr_K _ _ X W) as [Hc1 Hn1]. destruct X as [X1 [X2 _]].
+  match goal with |- context [log_append s1 ?es] =>
+    pose proof (log_append_iconf s1 es (fold_left cstep es (iconf (n_p s1))) Hc1) as F;
+    destruct (log_append s1 es) as [s2 | |]; simpl in *; auto end.
+  destruct F as [_ [F _]]; [| reflexivity |].
+  - unfold continues. simpl. unfold last_index. rewrite X1, X2, Hl, Hs. reflexivity.
+  - unfold K0. simpl. rewrite <- F. unfold cstep, isconfb. simpl. reflexivity.
+Qed.
+
+(* ---------------------------------------------------------------- follower: truncate above the snapshot, then append *)
+Lemma kx_truncate s ci :
+  K s -> (forall m, p_snap (n_p s) = Some m -> sn_index m <= ci - 1) ->
+  kx (s' <- do_mut (MTruncate (ci - 1)) s ;;
+      match n_conf s' with
+      | Some c => if ci <=? mb_index c then Ret (set_conf s' (init_latest_conf (n_p s'))) else Ret s'
+      | None => Ret s'
+      end).
+Proof.
+  intros [Hc Hn] Hm. destruct (mem_truncate_split (ci - 1) (p_log (n_p s))) as [tail [E F]].
+  pose proof (trunc_contig (n_p s) (ci - 1) Hc Hm) as Hc'.
+  unfold do_mut. destruct (negb (n_budget s =? 0) && (n_budget s =? n_cnt s + 1)); cbn [bind]; [exact I|].
+  cbn [n_conf upd_p]. unfold K0 in Hn. destruct (n_conf s) as [c |] eqn:Ec.
+  - destruct (ci <=? mb_index c) eqn:El.
+    + split; [exact Hc'|]. unfold K0. cbn. apply init_iconf. apply contig_ipos. exact Hc'.
+    + apply N.leb_gt in El. split; [exact Hc'|]. unfold K0. cbn [n_conf upd_p n_p]. rewrite Ec, Hn. symmetry.
+      apply (iconf_cut _ _ tail (ci - 1) E F). right. exists c. split; [auto | lia].
+  - split; [exact Hc'|]. unfold K0. cbn [n_conf upd_p n_p]. rewrite Ec, Hn. symmetry.
+    apply (iconf_cut _ _ tail (ci - 1) E F). left. auto.
+Qed.
+
+Lemma kx_handle_app_ents s from pi pt cm oes :
+  K s -> match oes with Some es => ents_wf es | None => True end -> kx (handle_app_ents s from pi pt cm oes).
+Proof.
+  intros W Hw. unfold handle_app_ents.
+  assert (W0 : K (set_follower_contact s)) by (eapply K_vol; [| | exact W]; reflexivity).
+  set (s0 := set_follower_contact s) in *.
+  apply kx_bind_pure. intros ok _.
+  destruct (negb ok); [eapply K_vol; [| | exact W0]; reflexivity|].
+  destruct oes as [ents |].
+  2: { eapply srx_kx with (s := send s0 from (AppEntsResp true pi 0)); [eapply K_vol; [| | exact W0]; reflexivity | apply srx_follower_maybe_commit]. }
+  apply kx_bind_pure. intros [ci any] Hci.
+  apply kx_bind.
+  - destruct any; [apply kx_truncate; [exact W0|] | exact W0].
+    intros m Hm. pose proof (conflict_index_above s0 ents ci m Hw Hci Hm). lia.
+  - intros s1 W1.
+    destruct (last_ent_index ents <=? last_index (n_p s1)).
+    + eapply srx_kx; [| apply srx_follower_maybe_commit]. eapply K_vol; [| | exact W1]; reflexivity.
+    + destruct ents as [| e0 r]; simpl; auto.
+      match goal with |- kx (if ?c then _ else _) => destruct c end; simpl; auto.
+      match goal with |- kx (match ?x with _ => _ end) => destruct x as [| a0 ar] eqn:Eapp end; simpl; auto.
+      match goal with |- kx (if ?c then _ else _) => destruct c eqn:Eidx end; simpl; auto.
+      apply negb_false_iff, N.eqb_eq in Eidx.
+      match goal with |- kx (bind (log_append ?x _) _) => set (s2 := x) end.
+      assert (HF : n_p s2 = n_p s1 /\ n_conf s2 = fold_left cstep (a0 :: ar) (n_conf s1)).
+      { destruct (fold_set_conf (a0 :: ar) s1) as [A [B _]]. split; [exact A | exact B]. }
+      destruct HF as [P2 C2].
+      destruct W1 as [Hc1 Hn1].
+      apply kx_bind.
+      * apply kx_log_append; [rewrite P2; exact Hc1 | rewrite P2; unfold continues; exact Eidx |].
+        rewrite C2, P2. unfold K0 in Hn1. rewrite Hn1. reflexivity.
+      * intros s3 W3. eapply srx_kx; [| apply srx_follower_maybe_commit]. eapply K_vol; [| | exact W3]; reflexivity.
+Qed.
+
+(* ---------------------------------------------------------------- snapshots *)
+Definition snapped (p : pstate) (m : snapmeta) : pstate := apply_mut p (MSnapCommit m).
+
+(* the recorded snapshot carries the configuration of the prefix it covers: reading the configuration off
+   the snapshot plus the configuration entries above its index gives the node's current configuration *)
+Definition snap_conf_ok (s : node) (m : snapmeta) : Prop := iconf (snapped (n_p s) m) = n_conf s.
+
+(* for an installed snapshot this is needed only when the follower's log already holds the snapshot's last entry *)
+Definition snap_pre (s : node) (m : snapmeta) : Prop :=
+  in_log (n_p s) (sn_index m) (sn_term m) = Ret true -> snap_conf_ok s m.
+
+Lemma in_log_ext p p' i t : p_log p' = p_log p -> in_log p' i t = in_log p i t.
+Proof. intro E. unfold in_log, log_term, log_entries. rewrite E. reflexivity. Qed.
+
+Lemma snap_pre_sr s s' m : sr s s' -> snap_pre s m -> snap_pre s' m.
+Proof.
+  intros [A [B [C _]]] H. unfold snap_pre, snap_conf_ok in *. rewrite (in_log_ext (n_p s) (n_p s') _ _ A). intro X.
+  rewrite C, <- (H X). apply iconf_ext; simpl; auto.
+Qed.
+
+Lemma mem_truncate0 l : ipos l -> mem_truncate 0 l = [].
+Proof.
+  intro H. unfold mem_truncate. rewrite <- (app_nil_r (rev l)). rewrite drop_while_all; [reflexivity|].
+  apply Forall_rev. eapply Forall_impl; [| exact H]. intros e He. simpl in He. apply N.ltb_lt. lia.
+Qed.
+
+Lemma k0x_trim_log s i : K0 s -> i <= sidx (n_p s) -> k0x (trim_log s i).
+Proof.
+  intros Hn Hi. unfold trim_log.
+  destruct (log_first (p_log (n_p s))); simpl; auto. destruct (log_last (p_log (n_p s))); simpl; auto.
+  destruct (i =? n - 1); simpl; auto. destruct ((i <? n) || (n0 <? i)); simpl; auto.
+  destruct (i - n <? cf_keep (n_cfg s)); simpl; auto.
+  unfold do_mut. destruct (negb (n_budget s =? 0) && (n_budget s =? n_cnt s + 1)); simpl; auto.
+  unfold K0 in *. simpl. rewrite Hn. symmetry.
+  apply (iconf_trim (n_p s) (i - cf_keep (n_cfg s))). lia.
+Qed.
+
+Lemma k0x_snapshot_done s m : K0 s -> snap_conf_ok s m -> k0x (snapshot_done s m).
+Proof.
+  intros Hn Hp. unfold snapshot_done.
+  match goal with |- k0x (if ?c then _ else _) => destruct c end; [exact Hn|].
+  unfold do_mut. destruct (negb (n_budget s =? 0) && (n_budget s =? n_cnt s + 1)); cbn [bind]; [exact I|].
+  apply k0x_trim_log.
+  - unfold K0. cbn [n_conf upd_p n_p]. symmetry. exact Hp.
+  - cbn. unfold sidx. simpl. lia.
+Qed.
+
+Lemma k0x_handle_snapshot s from li lt conf :
+  K s -> snap_pre s {| sn_index := li; sn_term := lt; sn_conf := Some conf |} -> k0x (handle_snapshot s from li lt conf).
+Proof.
+  intros [Hc Hn] Hp. unfold handle_snapshot.
+  assert (Hn0 : K0 (set_follower_contact s)) by (eapply K0_vol; [| | exact Hn]; reflexivity).
+  assert (Hp0 : snap_pre (set_follower_contact s) {| sn_index := li; sn_term := lt; sn_conf := Some conf |}) by exact Hp.
+  assert (Hc0 : contig (n_p (set_follower_contact s))) by exact Hc.
+  set (s0 := set_follower_contact s) in *. set (m := {| sn_index := li; sn_term := lt; sn_conf := Some conf |}) in *.
+  match goal with |- k0x (match ?x with _ => _ end) => destruct x end.
+  { eapply K0_vol; [| | exact Hn0]; reflexivity. }
+  unfold do_mut. destruct (negb (n_budget s0 =? 0) && (n_budget s0 =? n_cnt s0 + 1)); cbn [bind]; [exact I|].
+  match goal with |- k0x (bind (in_log (n_p ?x) li lt) _) => set (s1 := x) end.
+  apply k0x_bind_pure. intros il Hil.
+  assert (Hil0 : in_log (n_p s0) li lt = Ret il) by (rewrite <- Hil; symmetry; apply in_log_ext; reflexivity).
+  apply k0x_bind.
+  - destruct il.
+    + apply k0x_trim_log.
+      * unfold K0. symmetry. exact (Hp0 Hil0).
+      * unfold sidx. simpl. lia.
+    + unfold do_mut. destruct (negb (n_budget s1 =? 0) && (n_budget s1 =? n_cnt s1 + 1)); cbn [bind]; [exact I|].
+      simpl. unfold K0. simpl.
+      unfold iconf, slat, dropf, sidx. simpl. rewrite (mem_truncate0 (p_log (n_p s)) (contig_ipos _ Hc)). reflexivity.
+  - intros s2 W2. apply k0x_bind.
+    + destruct (n_commit s2 <? li); [eapply srx_k0x; [exact W2 | apply srx_commit_up_to] | exact W2].
+    + intros s3 W3. eapply K0_vol; [| | exact W3]; reflexivity.
+Qed.
+
+(* ---------------------------------------------------------------- messages *)
+Definition snap_msg_pre (s : node) (m : msg) : Prop :=
+  match m_body m with
+  | InstallSnap li lt conf => snap_pre s {| sn_index := li; sn_term := lt; sn_conf := Some conf |}
+  | _ => True
+  end.
+
+Lemma snap_msg_pre_sr s s' m : sr s s' -> snap_msg_pre s m -> snap_msg_pre s' m.
+Proof. unfold snap_msg_pre. destruct (m_body m); auto. apply snap_pre_sr. Qed.
+
+Lemma k0x_after_srx s (a : R node) (f : node -> R node) :
+  srx s a -> (forall s1, sr s s1 -> k0x (f s1)) -> k0x (bind a f).
+Proof. intros X F. destruct a; simpl in *; auto. Qed.
+
+Lemma k0x_handle_follower s m : K s -> mwf m -> snap_msg_pre s m -> k0x (handle_follower s m).
+Proof.
+  intros W Hw Hp. unfold handle_follower. unfold mwf in Hw. unfold snap_msg_pre in Hp. destruct (m_body m).
+  - eapply k0x_after_srx; [apply srx_follower_note_leader|]. intros s1 S1. apply kx_k0x. apply kx_handle_app_ents; [eapply sr_K; eauto | exact Hw].
+  - destruct W as [_ Hn]. exact Hn.
+  - apply k0x_bind_pure. intros g _. destruct W as [_ Hn]. apply k0x_bind.
+    + destruct g; [eapply srx_k0x; [exact Hn | apply srx_do_mut; exact I] | exact Hn].
+    + intros s1 W1. eapply K0_vol; [| | exact W1]; reflexivity.
+  - destruct W as [_ Hn]. exact Hn.
+  - eapply k0x_after_srx; [apply srx_follower_note_leader|]. intros s1 S1.
+    apply k0x_handle_snapshot; [eapply sr_K; eauto | eapply snap_pre_sr; eauto].
+Qed.
+
+Lemma srx_refl_ret s : srx s (Ret s). Proof. simpl. apply sr_refl. Qed.
+
+Lemma k0x_handle_msg s m : K s -> mwf m -> snap_msg_pre s m -> k0x (handle_msg s m).
+Proof.
+  intros W Hw Hp. pose proof W as [_ Hn]. unfold handle_msg.
+  destruct ((negb (m_to m =? 0) && negb (m_to m =? n_id s)) || (negb (m_tog m =? 0) && negb (m_tog m =? p_guid (n_p s)))); [exact Hn|].
+  destruct (negb (guid_get (m_from m) (p_guids (n_p s)) =? 0) && negb (guid_get (m_from m) (p_guids (n_p s)) =? m_fromg m)); [exact Hn|].
+  eapply k0x_after_srx.
+  - destruct (guid_get (m_from m) (p_guids (n_p s)) =? 0); [apply srx_do_mut; exact I | apply srx_refl_ret].
+  - intros s1 S1.
+    match goal with |- k0x (if ?c then _ else _) => destruct c end; [eapply sr_K0; eauto|].
+    destruct (m_term m <? p_term (n_p s1)); [eapply sr_K0; eauto|].
+    eapply k0x_after_srx with (s := s1).
+    + destruct (p_term (n_p s1) <? m_term m); [| apply srx_refl_ret].
+      destruct (m_body m); simpl; try exact I; try apply sr_refl;
+        (eapply srx_bind; [apply srx_do_mut; exact I | intros s2; kleafS]).
+    + intros s2 S2. pose proof (sr_trans _ _ _ S1 S2) as S. unfold handle_by_role. destruct (n_role s2).
+      * apply k0x_handle_follower; [eapply sr_K; eauto | exact Hw | eapply snap_msg_pre_sr; eauto].
+      * eapply srx_k0x; [eapply sr_K0; eauto | apply srx_handle_candidate].
+      * eapply srx_k0x; [eapply sr_K0; eauto | apply srx_handle_leader].
+Qed.
+
+(* ---------------------------------------------------------------- restart: the configuration is read off the durable state *)
+Lemma new_core_conf id cfg p s' : new_core id cfg p = Ret s' -> n_conf s' = init_latest_conf (n_p s').
+Proof.
+  unfold new_core. destruct (reconcile (blank_node id cfg p)) as [r | |]; simpl; try discriminate.
+  set (s0 := set_conf (blank_node id cfg (n_p r)) (init_latest_conf (n_p r))).
+  assert (X : srx s0 (match p_snap (n_p r) with None => Ret s0 | Some m => commit_up_to s0 (sn_index m) end)).
+  { destruct (p_snap (n_p r)); [apply srx_commit_up_to | apply srx_refl_ret]. }
+  destruct (match p_snap (n_p r) with None => Ret s0 | Some m => commit_up_to s0 (sn_index m) end) as [s1 | |]; simpl; try discriminate.
+  intro H. inversion H. subst. simpl. destruct X as [A [B [C _]]]. rewrite C. simpl.
+  unfold init_latest_conf. rewrite A, B. reflexivity.
+Qed.
+
+(* ---------------------------------------------------------------- every event *)
+Definition evK (s : node) (ev : event) : Prop :=
+  match ev with
+  | EDeliver m => mwf m /\ snap_msg_pre s m
+  | EPropose es => Forall (fun e => isconfb e = false) es
+  | ESnapDone m => snap_conf_ok s m
+  | _ => True
+  end.
+
+Definition ok2 (r : R (N * node)) : Prop :=
+  match r with Ret (_, s') => ipos (p_log (n_p s')) -> n_conf s' = init_latest_conf (n_p s') | _ => True end.
+
+Lemma k0x2_ok2 r : k0x2 r -> ok2 r.
+Proof. destruct r as [[st x] | |]; simpl; auto. intros H Hi. rewrite init_iconf; auto. Qed.
+
+Lemma ok2_run_event s ev : K s -> evK s ev -> ok2 (run_event s ev).
+Proof.
+  intros W He. destruct ev; simpl in *.
+  - apply k0x2_ok2. apply k0x2_bootstrap. exact W.
+  - apply k0x2_ok2. unfold wrap0. apply k0x2_of. destruct He. apply k0x_handle_msg; auto.
+  - apply k0x2_ok2. unfold wrap0. apply k0x2_of. destruct W. eapply srx_k0x; [eassumption | apply srx_tick].
+  - apply k0x2_ok2. apply k0x2_propose; auto.
+  - apply k0x2_ok2. apply k0x2_add_node. exact W.
+  - apply k0x2_ok2. apply k0x2_remove_node. exact W.
+  - apply k0x2_ok2. unfold wrap0. apply k0x2_of. destruct W. apply k0x_snapshot_done; auto.
+  - unfold wrap0. destruct (new_core (n_id s) (n_cfg s) (n_p s)) as [x | |] eqn:E; simpl; auto.
+    intros _. eapply new_core_conf; eauto.
+Qed.
+
+(* invariant (a) with snapshots: the configuration a node uses is the one its durable state determines
+   (snapshot membership, then the configuration entries above the snapshot index) *)
+Definition conf_logical (s : node) : Prop := contig (n_p s) /\ n_conf s = init_latest_conf (n_p s).
+
+Theorem conf_tracks_logical_step s ev k crashed st s' :
+  conf_logical s -> evK s ev ->
+  run_event_crash (settle s) ev k = Ret (crashed, st, s') -> conf_logical s'.
+Proof.
+  intros [Hc Hn] He Hrun.
+  assert (Hc' : contig (n_p s')).
+  { eapply contiguous_step; [exact Hc | | exact Hrun]. intros m ->. destruct He. assumption. }
+  split; [exact Hc'|]. revert Hrun. unfold run_event_crash.
+  assert (W0 : K (with_budget (settle s) k)).
+  { split; [exact Hc|]. unfold K0. simpl. rewrite Hn. apply init_iconf. apply contig_ipos. exact Hc. }
+  assert (He0 : evK (with_budget (settle s) k) ev) by exact He.
+  pose proof (ok2_run_event _ ev W0 He0) as P.
+  destruct (run_event (with_budget (settle s) k) ev) as [[st0 x] | c | p]; simpl in *; try discriminate.
+  - intro H. inversion H. subst. simpl. apply P. apply contig_ipos in Hc'. exact Hc'.
+  - destruct (new_core (n_id s) (n_cfg s) p) eqn:E; simpl; try discriminate.
+    intro H. inversion H. subst. eapply new_core_conf; eauto.
+Qed.
